@@ -667,5 +667,8 @@ func reachableAvoiding(fn *ssa.Function, from *ssa.BasicBlock, cut []Edge, avoid
 	if from == nil && len(fn.Blocks) > 0 && avoid[fn.Blocks[0]] {
 		return map[*ssa.BasicBlock]bool{}
 	}
+	if from != nil && avoid[from] {
+		return map[*ssa.BasicBlock]bool{}
+	}
 	return reachable(fn, from, append(extra, cut...))
 }
